@@ -48,6 +48,10 @@ enum {
 	QB_VP_RB_RD_REPOST,		/* read/peek: notification given back (a = 0 bad magic, 1 buffer too small) */
 	QB_VP_RB_RD_SIZE,		/* read/peek: length word read (a = value) */
 	QB_VP_RB_RD_COPY,		/* read: payload copied out (a = length) */
+
+	/* explicit-order atomics (lib/atomic_int.h): obj = address, b = enum qb_atomic_model actually requested */
+	QB_VP_ATOMIC_LOAD = 300,
+	QB_VP_ATOMIC_STORE,		/* a = value about to be stored */
 };
 
 #endif /* QB_VERIF_HOOK_H_DEFINED */
